@@ -38,6 +38,10 @@ CHECKS = {
    text="CONNECT x 14 authority shapes (reserved names, look-alikes, literals, names with/without port) x 12 outcomes of the outbound attempt (connected, ECONNREFUSED, ENETUNREACH, EHOSTUNREACH, ETIMEDOUT, never completes + virtual clock past the establishment timeout, policy loopback / non-routable, resolver failure, only-IPv6 with IPv6 unavailable, EMFILE, bad credentials) x {HTTP/1.1, HTTP/2} x {client waits, client closes}, plus GET/POST/OPTIONS/HEAD on reserved authorities, through the real accept path with the real DirectForwarder; everything the endpoint writes on the stream is parsed: exactly one final response with the documented status / X-Warning / X-Adguard-Vpn-Error, reserved authorities never reach the resolver/connector, session released when the client goes away.",
    note="connect(2)/getaddrinfo answers come from the interposer; HTTP/3 not driven; request lines the protocol library itself refuses are unconstrained.",
    tech="exhaustive decision-table x fault-outcome enumeration on the real accept path with syscall interposition and a virtual clock"),
+ "C08": dict(cat="exploration",
+   text="18 HTTP/1.1 request heads (valid, at the header-count and size limits, near-miss invalid) + payload, delivered to the real accept path (Http1Codec + HttpDownstream + Tunnel + DirectForwarder) over a scripted transport under every 1-cut and 2-cut segmentation (all byte positions for short streams, structural positions for ~1 KiB heads) and byte-at-a-time, the endpoint running to quiescence between pieces. Oracle: outcome (response, bytes reaching the destination, bytes relayed back, closure) identical to the one-piece delivery, itself checked against an independent expectation; no polling of the transport while input is outstanding; a delivery that never returns is reported by an OS-thread watchdog; bytes pulled before a rejection <= 1 KiB + one read.",
+   note="select! start index fixed at 0; quiescence = 40 idle scheduler turns; heads >= 1024 bytes may be accepted or rejected depending on read sizes.",
+   tech="bounded-exhaustive enumeration of inputs x segmentations (arrival schedules) on the real accept path, differential + independent oracle, watchdog for non-termination"),
 }
 NOT_YET = "check not built yet in this round (planned, see DESIGN.md section 3)"
 
